@@ -45,6 +45,34 @@ def expect_fixture_hits(rep, col, expected):
                       'rule %s no longer fires on the fixture containing %r (dead rule)' % (rule, sub))
 
 
+class Forwarder:
+    """Runs another property's rules as producer rules of this one: instances whose 'rule/key' matches `select`
+    are recorded in `rep` under rule `as_rule` (key prefixed with the origin), everything else is dropped."""
+    def __init__(self, rep, as_rule, select, origin):
+        self.rep, self.as_rule, self.select, self.origin = rep, as_rule, re.compile(select), origin
+        self.n = 0
+    def rule(self, *a): pass
+    def note(self, *a): pass
+    def analysed(self, *a, **k): pass
+    def floor(self, *a, **k): pass
+    def _k(self, rule, key):
+        return '%s-%s/%s' % (self.origin, rule, key)
+    def ok(self, rule, key, where='-', detail=''):
+        if self.select.search('%s/%s' % (rule, key)):
+            self.n += 1
+            self.rep.ok(self.as_rule, self._k(rule, key), where, detail)
+    def violation(self, rule, key, where, detail):
+        if self.select.search('%s/%s' % (rule, key)):
+            self.n += 1
+            self.rep.violation(self.as_rule, self._k(rule, key), where, detail)
+    def check(self, cond, rule, key, where, detail_ok='', detail_bad=''):
+        if cond:
+            self.ok(rule, key, where, detail_ok)
+        else:
+            self.violation(rule, key, where, detail_bad)
+        return cond
+
+
 class Report:
     def __init__(self, pid, tier, seed, level):
         self.pid, self.tier, self.seed, self.level = pid, tier, seed, level
